@@ -95,14 +95,14 @@ theorem fastq_any_history_total (inp : List UInt8) (cap : Nat) (hcap : 1 ≤ cap
     ∀ o ∈ Fastq.Hist.runM (Fastq.Hist.mkM inp cap pol script chunk seekFails) ops, o ≠ .panic ∧ o ≠ .fuel :=
   Fastq.fastq_history_total inp cap hcap pol hpol script chunk seekFails ops
 
-/-- FASTQ, genuine records: every record shown by any observation of any history is a record of S –
-for failure-free sources and policies that may refuse (the version for failing sources is in
-`FastqHistoryGenuine.lean` when the tree contains it; see the evidence) -/
-theorem fastq_any_history_genuine_partial (inp : List UInt8) (cap : Nat) (hcap : 3 ≤ cap) (pol : Pol)
-    (hpol : PolWf pol) (script : List ReadEv) (hs : NoFail script) (chunk : Nat)
+/-- FASTQ, genuine records at full strength: for every input, capacity, policy that may refuse, read
+script with failures anywhere, scripted seek failures and history, every record shown by any observation
+(next, owned, record-set iteration) is a record of S -/
+theorem fastq_any_history_genuine (inp : List UInt8) (cap : Nat) (hcap : 3 ≤ cap) (pol : Pol)
+    (hpol : PolWf pol) (script : List ReadEv) (chunk : Nat) (seekFails : List (Nat × IoKind))
     (ops : List Fastq.Hist.Op) (hops : ∀ op ∈ ops, op.wf = true) :
-    ∀ o ∈ Fastq.Hist.runM (Fastq.Hist.mkM inp cap pol script chunk) ops,
+    ∀ o ∈ Fastq.Hist.runM (Fastq.Hist.mkM inp cap pol script chunk seekFails) ops,
       ∀ x ∈ Fastq.recsOf o, x ∈ Fastq.allRecs inp :=
-  Fastq.fastq_history_genuine inp cap hcap pol hpol script hs chunk ops hops
+  Fastq.fastq_history_genuine inp cap hcap pol hpol script chunk seekFails ops hops
 
 end SeqIo.Thm.C06
